@@ -10,7 +10,7 @@
 use std::sync::Arc;
 
 use crate::{
-    c07::{call_resolve, case_sx, decode_case, histories, oracle, outcome_sx, pick_subsets, scenario_chain_through_unconflicted,
+    c07::{call_resolve_via, case_sx, decode_case, histories, oracle, outcome_sx, pick_subsets, scenario_chain_through_unconflicted,
           scenario_concurrent_moderators, scenario_long_fork, scenario_mainline, smap_sx, ResolveCase, SMap, Sim},
     rng::Rng,
     sx::{guarded, Sx},
@@ -51,7 +51,7 @@ pub fn run_many(c: &ResolveCase, seed: u64) -> Option<Sx> {
                     let j = r.below(i + 1);
                     order.swap(i, j);
                 }
-                out.push(call_resolve(&c, &store, &order));
+                out.push(call_resolve_via(&c, &store, &order, r.below(4)));
             }
             out
         }));
@@ -86,7 +86,7 @@ fn run_large(n: usize, seed: u64) -> Sx {
             (0..RUNS_PER_THREAD)
                 .map(|_| {
                     let order = if r.chance(1, 2) { vec![0, 1] } else { vec![1, 0] };
-                    call_resolve(&c, &store, &order)
+                    call_resolve_via(&c, &store, &order, r.below(4))
                 })
                 .collect::<Vec<_>>()
         }));
